@@ -1,0 +1,27 @@
+//go:build verif && linux
+// +build verif,linux
+
+package seccomp
+
+import "syscall"
+
+// VerifPoint, when set, is called at named points of LoadFilter.
+var VerifPoint func(name string)
+
+// VerifInstall, when set, receives what LoadFilter is about to hand to the
+// seccomp system call.
+var VerifInstall func(op uintptr, flags uint32, prog []syscall.SockFilter)
+
+func verifPoint(name string) {
+	if VerifPoint != nil {
+		VerifPoint(name)
+	}
+}
+
+func verifInstall(op uintptr, flags FilterFlag, prog []syscall.SockFilter) {
+	if VerifInstall != nil {
+		cp := make([]syscall.SockFilter, len(prog))
+		copy(cp, prog)
+		VerifInstall(op, uint32(flags), cp)
+	}
+}
